@@ -395,6 +395,10 @@ def build_python_source(spec):
         cols, rows = sp['cols'], sp['rows']
         if sp['type'] == 'frame':
             out[name] = pd.DataFrame([list(r) for r in rows], columns=cols) if rows else pd.DataFrame({c: pd.Series([], dtype='object') for c in cols})
+            if sp.get('dup_index') and len(rows) >= 2:
+                # a frame put together from two frames (pd.concat without ignore_index): the index labels 0, 1, ... occur twice
+                h = len(rows) // 2
+                out[name] = pd.concat([pd.DataFrame([list(r) for r in rows[:h]], columns=cols), pd.DataFrame([list(r) for r in rows[h:]], columns=cols)])
             for c_, dt_ in (sp.get('dtypes') or {}).items():
                 out[name][c_] = out[name][c_].astype(dt_)       # pandas nullable dtypes: None becomes pd.NA
         elif sp['type'] == 'pylist':
